@@ -40,7 +40,7 @@ LEVEL_NOTE = "Trusted: the base Model's numbers (C01); the enumeration in this f
 def budget(tier: str) -> dict:
     if tier == "quick":
         return {"examples": 1200}
-    return {"examples": 1500, "shards": 16}
+    return {"examples": 1500, "shards": 16, "fuzz_seconds": 45}
 
 
 @st.composite
